@@ -45,12 +45,41 @@ def run(ctx: Ctx, chk) -> None:
     chk.run_rule(reject_set, ctx)
     chk.run_rule(reject_esc, ctx)
     chk.run_rule(reject_reaches, ctx)
+    chk.run_rule(reject_names, ctx)
     chk.run_rule(tables.handler_state_rule, ctx)
     chk.run_rule(ctor_identity, ctx)
     chk.run_rule(placeholder_fresh, ctx)
 
 
 # ---------------------------------------------------------------------------
+
+
+def reject_names(ctx: Ctx, chk) -> None:
+    rule = "REJECT-NAMES"
+    chk.rule(rule, "the error for an unknown node or child names it: every `raise MissingNodeError(<x>)` in the package is built from a node id (`<message>.node_id`, a parameter / attribute called node_id), every `raise MissingChildError(<x>)` from a child id - the statement: 'fails with an error that names that node or child'")
+    want = {"MissingNodeError": "node_id", "MissingChildError": "child_id"}
+    n = 0
+    for f in ctx.prog.all_functions():
+        raises = [x for x in ctx.own_nodes(f) if isinstance(x, ast.Raise) and isinstance(x.exc, ast.Call) and norm(x.exc.func).rsplit(".", 1)[-1] in want]
+        if not raises:
+            continue
+        cn = Canon(ctx.I, f, "")
+        for r in raises:
+            cls_ = norm(r.exc.func).rsplit(".", 1)[-1]
+            n += 1
+            chk.instance(rule)
+            key = f"{f.fq}::raise {cls_}"
+            if len(r.exc.args) != 1 or r.exc.keywords:
+                raise AnalysisError(f"REJECT-NAMES: `{norm(r.exc)[:60]}` in {f.qualname} is not built from one positional argument ({ctx.loc(f, r)})")
+            a = cn.canon(r.exc.args[0])
+            tail = a.rsplit(".", 1)[-1]
+            if tail == want[cls_]:
+                chk.ok(rule, key, f"{cls_}({a})", ctx.loc(f, r), sample=n <= 3)
+            elif tail in want.values():
+                chk.refute(rule, key, f"`{norm(r.exc)[:70]}` in {f.qualname} names the {tail.replace('_id', '')} (`{a}`) in a {cls_}: the error for an unknown {want[cls_].replace('_id', '')} does not say which {want[cls_].replace('_id', '')} is missing", ctx.loc(f, r))
+            else:
+                raise AnalysisError(f"REJECT-NAMES: the argument `{a[:60]}` of {cls_} in {f.qualname} is not recognised as a node / child id ({ctx.loc(f, r)})")
+    chk.floor(rule, "raise sites of MissingNodeError / MissingChildError", n, 2)
 
 
 LICENSED_REJECTIONS = {
